@@ -53,8 +53,9 @@ def to_script(name, hist, kinds):
     return json.dumps(dict(name=name, steps=steps), separators=(",", ":"))
 
 
-RQOS = {"Q_12": [1, 2], "Q_212": [2, 1, 2], "Q_2211": [2, 2, 1, 1], "Q_122": [1, 2, 2]}
-RCFGS = {"quick": ["MCRecv.gen.cfg", "MCRecv.gen.Q_122.cfg"], "thorough": ["MCRecv.gen.cfg", "MCRecv.gen.Q_122.cfg", "MCRecv.gen.Q_2211.cfg"]}
+RQOS = {"Q_12": [1, 2], "Q_22": [2, 2], "Q_212": [2, 1, 2], "Q_2211": [2, 2, 1, 1], "Q_122": [1, 2, 2]}
+RCFGS = {"quick": ["MCRecv.gen.cfg", "MCRecv.gen.Q_122.cfg", "MCRecv.gen.Q_22.cfg"],
+         "thorough": ["MCRecv.gen.cfg", "MCRecv.gen.Q_122.cfg", "MCRecv.gen.Q_22.cfg", "MCRecv.gen.Q_2211.cfg"]}
 
 
 def to_script_recv(name, hist, qos):
@@ -65,8 +66,10 @@ def to_script_recv(name, hist, qos):
     for h in hist:
         o = h["op"]
         if o == "bpub": steps.append(dict(op="bpub", qos=qos[h["m"] - 1], msg="r%d" % h["m"]))
-        elif o == "wdeliver": steps.append(dict(op="wdeliver"))
-        elif o == "wend": steps.append(dict(op="wend", ec="ok"))
+        # (Recv.tla writes one acknowledgement per write; the real sender puts everything queued into one write, so a
+        # later wdeliver / wend of the model may find no write left: those two are optional steps)
+        elif o == "wdeliver": steps.append(dict(op="wdeliver", opt=1))
+        elif o == "wend": steps.append(dict(op="wend", ec="ok", opt=1))
         elif o == "fault": steps.append(dict(op="fault", ec="reset"))
         elif o == "reconnect":
             # the pause after the single broker failed, the TCP connect, then the CONNECT write goes through
